@@ -31,7 +31,7 @@ var ownDiscipline = map[string]string{
 	"serverConn.maxRequestBodySize": "init-only", "serverConn.maxRequestTime": "init-only", "serverConn.pingInterval": "init-only",
 	"serverConn.maxIdleTime": "init-only", "serverConn.st": "init-only", "serverConn.debug": "init-only", "serverConn.logger": "init-only",
 	"serverConn.writer": "init-only", "serverConn.reader": "init-only", "serverConn.writeStop": "init-only", "serverConn.handlerDone": "init-only",
-	"serverConn.handlerStop": "init-only", "serverConn.closer": "init-only",
+	"serverConn.handlerStop": "init-only", "serverConn.closer": "init-only", "serverConn.writeGone": "init-only",
 	"serverConn.pingTimer": "init-only", "serverConn.maxRequestTimer": "init-only", "serverConn.maxIdleTimer": "init-only",
 	"serverConn.br": "owner:conn", "serverConn.clientS": "owner:go:(*serverConn).Serve$3",
 	"serverConn.bw":            "owner:go:(*serverConn).Serve$2",
@@ -41,7 +41,7 @@ var ownDiscipline = map[string]string{
 	"serverConn.currentWindow": "owner:go:(*serverConn).Serve$3",
 	"serverConn.lastID":        "owner:go:(*serverConn).Serve$3",
 	"serverConn.discard":       "owner:go:(*serverConn).Serve$3",
-	"serverConn.state":         "atomic", "serverConn.closeRef": "atomic",
+	"serverConn.state":         "atomic", "serverConn.closeRef": "atomic", "serverConn.writeLimit": "atomic",
 	// Conn
 	"Conn.c": "init-only", "Conn.maxWindow": "init-only", "Conn.current": "init-only", "Conn.disableAcks": "init-only",
 	"Conn.winCh": "init-only", "Conn.in": "init-only", "Conn.out": "init-only", "Conn.done": "init-only",
